@@ -173,7 +173,47 @@ static size_t vanish_gen(long idx, uint8_t *payload, char *human, size_t hn) {
 	payload[0] = (uint8_t) (idx % 18); payload[1] = (uint8_t) (idx / 18);
 	static const char *bn[3] = {"oc1", "lc1", "booster2"}; snprintf(human, hn, "%s vanishes at GETNEXT #%d during %s", bn[payload[0] % 3], payload[0] / 3, payload[1] ? "a later system reset" : "start-up"); return 2;
 }
-void c20_register(void) { harness_register("c20.start", c20_child); harness_register("c20.vanish", vanish_child); harness_register("c20.hub", hub_child); }
+/* ---------------------------------------------------------------- c20.slow: a board that is slow to confirm, or stalled
+ * oc1 is configured with 1 / 8 / 9 / 10 / 12 features (eight 6-byte answers fill its response budget, so from the ninth on the
+ * settings are HELD by flow control until answers arrive or expire).  Mode 0: every MSG_FEATURE answer of oc1 arrives D later
+ * (a timer thread of the harness delivers it in virtual time); mode 1: oc1 reports MSG_STALL(1) at the end of the enumeration
+ * and MSG_STALL(0) D later, so everything for it is held meanwhile.  D = 0.5 / 1.5 / 3 / 5 s.  The transcript must still show
+ * every feature setting exactly once and before MSG_SYS_ENABLE. */
+static struct { uint64_t due; int node; uint8_t type; uint8_t d[4]; int dl; int sent; } late[64]; static int nlate; static volatile int timer_stop;
+static int slow_mode, slow_node, slow_rows_seen, slow_rows; static uint64_t slow_delay;
+static void late_add(int node, uint8_t type, const uint8_t *d, int dl) { if (nlate >= 64) res_infra("too many delayed answers"); late[nlate].due = vs_now_us() + slow_delay; late[nlate].node = node; late[nlate].type = type; memcpy(late[nlate].d, d, (size_t) dl); late[nlate].dl = dl; late[nlate].sent = 0; nlate++; }
+static void *bus_timer(void *arg) { (void) arg;
+	while (!timer_stop) { vs_sleep_us(50000); uint64_t now = vs_now_us(); for (int i = 0; i < nlate; i++) if (!late[i].sent && late[i].due <= now) { late[i].sent = 1; sb_send(late[i].node, late[i].type, late[i].d, late[i].dl); } }
+	return NULL; }
+static int slow_hook(int node, const rc_msg_t *m) {
+	if (slow_mode == 0 && node == slow_node && m->type == MSG_FEATURE_SET && m->dlen >= 2) { uint8_t d[2] = {m->data[0], m->data[1]}; late_add(node, MSG_FEATURE, d, 2); return 1; }
+	if (slow_mode == 1 && node == 0 && m->type == MSG_NODETAB_GETNEXT && ++slow_rows_seen == slow_rows) { uint8_t on = 1, off = 0; sb_send(slow_node, MSG_STALL, &on, 1); late_add(slow_node, MSG_STALL, &off, 1); return 0; }
+	return 0;
+}
+static void slow_child(const void *job, size_t n) {
+	vs_dev_t devs[VS_MAXDEV]; int nd; size_t pl; const uint8_t *p = job_parse(job, n, devs, &nd, &pl);
+	static const int NF[5] = {1, 8, 9, 10, 12}; static const uint64_t DL[4] = {500000, 1500000, 3000000, 5000000};
+	int nf = NF[p[0] % 5]; slow_delay = DL[p[0] / 5 % 4]; slow_mode = p[0] / 20; nlate = 0; timer_stop = 0; slow_rows_seen = 0;
+	c20_case_t c = { 1, 1, 1, 0x3F, 7, 0, 0 }; static cm_model_t m; build(&m, &c);
+	m.b[1].nfeatures = nf; for (int k = 0; k < nf; k++) m.b[1].features[k] = (cm_feature_t) {(uint8_t) (0x10 + k), (uint8_t) (k + 1)};
+	hx_child_begin(NULL, 0, 0, NULL, 0, 120ull * 1000000ull);
+	cm_install(&m); slow_node = m.b[1].sbnode; slow_rows = 0; for (int i = 0; i < SB.nn; i++) if (SB.n[i].parent == 0 && SB.n[i].present) slow_rows++; slow_rows++;
+	SB.on_msg = slow_hook;
+	int t = vs_spawn(bus_timer, NULL);
+	int rc = hx_start_normal(0);
+	timer_stop = 1; vs_join_tid(t); hx_quiesce();
+	char what[160]; snprintf(what, sizeof what, "start-up, oc1 with %d features %s %.1f s", nf, slow_mode ? "stalled at the end of the enumeration for" : "answers every feature setting after", (double) slow_delay / 1e6);
+	if (rc) res_violation("start-failed", "%s: bidib_start_pointer returned %d", what, rc);
+	else { int reset_at = 0; for (int i = 0; i < SB.nlog; i++) if (SB.log[i].type == MSG_SYS_RESET) reset_at = i; check_segment(&m, reset_at, SB.nlog, what); }
+	int delivered = 0; for (int i = 0; i < nlate; i++) delivered += late[i].sent;
+	hx_emit_ledger_violations("C20");
+	hx_hash_t h; hx_hash_init(&h); for (int i = 0; i < SB.nlog; i++) { hx_hash_add(&h, SB.log[i].addr, 4); hx_hash_add(&h, &SB.log[i].type, 1); hx_hash_add(&h, SB.log[i].data, (size_t) SB.log[i].dlen); }
+	res_printf("O %llx %llx\nC delayed_messages_delivered %d\n", (unsigned long long) h.a, (unsigned long long) h.b, delivered);
+	res_finish();
+}
+static size_t slow_gen(long idx, uint8_t *payload, char *human, size_t hn) { static const int NF[5] = {1, 8, 9, 10, 12}; static const char *DL[4] = {"0.5", "1.5", "3", "5"};
+	payload[0] = (uint8_t) idx; snprintf(human, hn, "oc1 with %d features, %s %s s", NF[idx % 5], idx / 20 ? "stalled for" : "feature answers delayed by", DL[idx / 5 % 4]); return 1; }
+void c20_register(void) { harness_register("c20.slow", slow_child); harness_register("c20.start", c20_child); harness_register("c20.vanish", vanish_child); harness_register("c20.hub", hub_child); }
 int c20_run(const char *tier) {
 	int thorough = !strcmp(tier, "thorough");
 	stride = 1; (void) thorough;
@@ -183,6 +223,9 @@ int c20_run(const char *tier) {
 	ex_map(&v); e.done += v.done; e.distinct_outcomes += v.distinct_outcomes; if (!v.exhaustive) e.exhaustive = 0;
 	ex_spec_t hb = { .harness = "c20.hub", .ncases = 96, .gen = hub_gen, .label = "c20.hub" };
 	ex_map(&hb); e.done += hb.done; e.distinct_outcomes += hb.distinct_outcomes; if (!hb.exhaustive) e.exhaustive = 0;
+	ex_spec_t sl = { .harness = "c20.slow", .ncases = 40, .gen = slow_gen, .label = "c20.slow" };
+	ex_map(&sl); e.done += sl.done; e.distinct_outcomes += sl.distinct_outcomes; if (!sl.exhaustive) e.exhaustive = 0;
+	rep_note("c20.slow: %ld start-ups with a slow or stalled board (5 feature counts x 4 delays x {late answers, stall}), %ld delayed messages delivered", sl.done, rep_get("delayed_messages_delivered"));
 	rep_note("c20.hub: %ld start-ups with configured boards beneath a hub the configuration does not mention", hb.done);
 	rep_note("c20.vanish: %ld cases (3 boards x GETNEXT #0..5 x {start-up, later reset}), table change applied in %ld", v.done, rep_get("table_changes_applied"));
 	rep_count("executions", e.done); rep_count("states", e.distinct_outcomes); rep_count("transitions", e.done * 2); rep_flag("exhaustive", e.exhaustive);
